@@ -67,7 +67,8 @@ func basicPool(b string) []*ty.Val {
 		o := uint64(math.Float32bits(1.5))
 		return []*ty.Val{{K: ty.VCplx, W: 32, Bits: z, Bits2: z}, {K: ty.VCplx, W: 32, Bits: nz, Bits2: z}, {K: ty.VCplx, W: 32, Bits: z, Bits2: o}, {K: ty.VCplx, W: 32, Bits: o, Bits2: z}}
 	case "string":
-		return []*ty.Val{sv(""), sv("a"), sv("ab"), sv("b"), sv("\xff"), sv("é\"\n"), sv("a\x00")}
+		// the third one is longer than any small-string fast path (word-at-a-time hashing, SSO)
+		return []*ty.Val{sv(""), sv("a"), sv("0123456789abcdefghijklmnopqrstuvwxyzABCD"), sv("ab"), sv("b"), sv("\xff"), sv("é\"\n"), sv("a\x00")}
 	}
 	panic("no pool for basic " + b)
 }
